@@ -25,6 +25,8 @@ TRUSTED = [
 ASSUMPTIONS = [
     "the request header block is valid UTF-8 (otherwise the channel raises before any handler is consulted)",
     "one configured user per server section, as make_http_servers builds it",
+    "F18 boundary, exactly: served_iff_authorized holds for every server section whose parsed username is a non-empty string. A section with `username=` (empty value) and any password is ACCEPTED by _parse_username_and_password (it only rejects one of the two being absent), reaches make_http_servers as ('', password), fails `if username:` and runs with no handler wrapped (theorem f18_empty_username_disables_auth; monitor kind empty-username-disables-auth; open finding F18). A section with neither option is unauthenticated by design. An empty PASSWORD with a non-empty username is authenticated normally (credentials 'user:').",
+    "a configured username containing ':' can never authenticate (the decoded cookie is split at the first colon): fails closed",
 ]
 RULE = ("level A cases = (stored user, stored password plain|{SHA}) x Authorization header class: absent, other scheme, "
         "case variants of the name and scheme, bad base64, non-UTF-8, missing colon, empty user / password, every prefix "
@@ -339,17 +341,49 @@ class Rec:
         request.done()
 
 
+def parse_server_configs(ctx, username, password, sock):
+    from supervisor.options import ServerOptions
+    import io
+    cred = ''
+    if username is not None:
+        cred += 'username=%s\n' % username
+    if password is not None:
+        cred += 'password=%s\n' % password
+    probe = socket.socket(); probe.bind(('127.0.0.1', 0)); port = probe.getsockname()[1]; probe.close()
+    text = ('[supervisord]\n[inet_http_server]\nport=127.0.0.1:%d\n' % port + cred +
+            '[unix_http_server]\nfile=%s\nchmod=0700\n' % sock + cred)
+    o = ServerOptions()
+    o.configfile = io.StringIO(text)
+    try:
+        o.realize(args=[])
+    except SystemExit:
+        from framework import Infra
+        raise Infra('the parser rejected the generated server sections: %r' % text)
+    configs = list(o.server_configs)
+    fams = sorted(c['family'] for c in configs)
+    if fams != sorted([socket.AF_INET, socket.AF_UNIX]):
+        ctx.violation('server-section-lost', 'parsed server families %r' % fams, {'level': 'B', 'config': text})
+    for c in configs:
+        ctx.count('parse:%s:username=%s' % ('inet' if c['family'] == socket.AF_INET else 'unix',
+                                            'None' if c['username'] is None else ('empty' if c['username'] == '' else 'set')))
+        if (c['username'], c['password']) != (username, password):
+            ctx.violation('credentials-altered-by-parser',
+                          'section %s: configured (%r, %r), make_http_servers receives (%r, %r)'
+                          % (c['section'], username, password, c['username'], c['password']),
+                          {'level': 'B', 'config': text})
+    return configs
+
+
 def build_servers(ctx, username, password):
     """real make_http_servers for one inet and one unix configuration; inner handlers -> recorders"""
     from supervisor.tests.base import DummyOptions, DummySupervisor, DummyRPCInterfaceFactory
     from supervisor.http import make_http_servers, supervisor_auth_handler
     options = DummyOptions()
     sock = os.path.join(ctx.scratch, 'sv-%d.sock' % len(os.listdir(ctx.scratch)))
-    inet = {'family': socket.AF_INET, 'host': '127.0.0.1', 'port': 0, 'username': username, 'password': password,
-            'section': 'inet_http_server'}
-    unix = {'family': socket.AF_UNIX, 'file': sock, 'chmod': 0o700, 'chown': (-1, -1), 'username': username,
-            'password': password, 'section': 'unix_http_server'}
-    options.server_configs = [inet, unix]
+    # the server configurations come out of the real parser ([inet_http_server] / [unix_http_server] sections ->
+    # ServerOptions.server_configs_from_parser), so that a change in how username/password reach
+    # make_http_servers is seen here
+    options.server_configs = parse_server_configs(ctx, username, password, sock)
     options.rpcinterface_factories = [('dummy', DummyRPCInterfaceFactory, {})]
     servers = make_http_servers(options, DummySupervisor())
     out = []
@@ -427,7 +461,7 @@ VERSIONS = [' HTTP/1.0', ' HTTP/1.1', '']
 def run_level_b(ctx):
     rng = ctx.rng
     thorough = ctx.tier == 'thorough'
-    configs = [('user', 'secret', False, 'auth'), ('user', 'secret', True, 'auth'), ('üser', 'p:w', False, 'auth'),
+    configs = [('user', 'secret', False, 'auth'), ('Admin User', 'Sec ret=;#x', True, 'auth'), ('üser', 'p:w', False, 'auth'),
                ('u', '', False, 'auth'),
                ('', 'secret', False, 'empty-username'), (None, None, False, 'no-auth')]
     cases, impls = [], []
